@@ -5,6 +5,7 @@ src/ep/relic_ep_param.c on every run (exactly the sets selectable in the configu
 evaluated by the kernel on the extracted literals; primality comes from Pratt certificates (found by an
 untrusted search, checked here line by line) through Mathlib's Lucas test.
 -/
+import Mathlib.Tactic.Ring
 import RelicVerif.Lemmas.Pratt
 import RelicVerif.Model.ParamBase
 import RelicVerif.Gen.Params
@@ -71,5 +72,81 @@ theorem twists_consistent :
 
 /-- the table is not empty (the theorems above are not vacuous) -/
 theorem tables_nonempty : Params.fields.length ≥ 1 ∧ Params.curves.length ≥ 1 := by decide +kernel
+
+/-! ### The other verified configurations (255-bit and 381-bit field sizes)
+
+`Params.extraFields` / `Params.extraCurves` are extracted from the same two switch statements preprocessed with the `relic_conf.h` of the
+p255 and p381 configurations (Curve25519 in Weierstrass form, Tweedledum, BLS12-381).  The same predicates, evaluated by the kernel. -/
+
+theorem extra_fields_consistent : Params.extraFields.all fieldOk = true := by decide +kernel
+
+theorem extra_field_moduli_certified :
+    Params.extraFields.all (fun f => (certified Certs.lines).contains f.prime) = true := by decide +kernel
+
+/-- 2^255 − 19, the Tweedledum base field and the 381-bit BLS12 characteristic (x−1)²(x⁴−x²+1)/3 + x are prime -/
+theorem extra_field_moduli_prime : ∀ f ∈ Params.extraFields, Nat.Prime f.prime := by
+  intro f hf
+  have h := List.all_eq_true.mp extra_field_moduli_certified f hf
+  exact certified_prime Certs.lines f.prime (by simpa using h)
+
+theorem extra_curves_consistent :
+    Params.extraCurves.all (fun c => match lookupField Params.extraFields c.field with
+      | some f => curveOk f.prime c
+      | none => false) = true := by decide +kernel
+
+theorem extra_curve_orders_certified :
+    Params.extraCurves.all (fun c => (certified Certs.lines).contains c.r) = true := by decide +kernel
+
+theorem extra_curve_orders_prime : ∀ c ∈ Params.extraCurves, Nat.Prime c.r := by
+  intro c hc
+  have h := List.all_eq_true.mp extra_curve_orders_certified c hc
+  exact certified_prime Certs.lines c.r (by simpa using h)
+
+/-- BLS12-381: declared family = the field's family, r = x⁴ − x² + 1, cofactor (x − 1)²/3, embedding degree 12 -/
+theorem extra_pairing_sets_consistent :
+    Params.extraCurves.all (fun c => c.pairf == "" || match lookupField Params.extraFields c.field with
+      | some f => bnOk f c
+      | none => false) = true := by decide +kernel
+
+theorem extra_embedding_degrees_consistent :
+    Params.extraCurves.all (fun c => match lookupField Params.extraFields c.field with
+      | some f => embedConsistent f.prime c
+      | none => false) = true := by decide +kernel
+
+theorem extra_security_levels_consistent :
+    let all := Params.extraCurves.filterMap (fun c => (lookupField Params.extraFields c.field).map (fun f => (f.prime, c)))
+    all.all (fun pc => levelConsistent all pc.1 pc.2) = true := by decide +kernel
+
+theorem extra_twists_consistent :
+    Params.extraCurves.all (fun c => match c.twist, lookupField Params.extraFields c.field with
+      | none, _ => c.pairf == ""
+      | some t, some f => twistOk f.prime c t
+      | some _, none => false) = true := by decide +kernel
+
+/-- the extra tables are not empty and contain a pairing-friendly set of the BLS12 family (so the family branch of `bnOk` is exercised) -/
+theorem extra_tables_nonempty :
+    Params.extraFields.length ≥ 1 ∧ Params.extraCurves.any (fun c => c.pairf == "EP_B12") = true := by decide +kernel
+
+/-- Barreto–Naehrig, every integer x: r(x) divides Φ₁₂(p(x)) = p⁴ − p² + 1, so the embedding degree of every BN parameter set divides 12
+    (p ≡ 6x² mod r and Φ₁₂(6x²) = r(x)·r(−x)) -/
+theorem bn_family_embedding (x : Int) : bnR x ∣ (bnP x) ^ 4 - (bnP x) ^ 2 + 1 := by
+  have hp : bnP x = bnR x + 6 * x ^ 2 := by unfold bnP bnR; ring
+  refine ⟨(bnR x) ^ 3 + 4 * (bnR x) ^ 2 * (6 * x ^ 2) + 6 * (bnR x) * (6 * x ^ 2) ^ 2 + 4 * (6 * x ^ 2) ^ 3 - (bnR x) - 2 * (6 * x ^ 2)
+      + (36 * x ^ 4 - 36 * x ^ 3 + 18 * x ^ 2 - 6 * x + 1), ?_⟩
+  rw [hp]; unfold bnR; ring
+
+/-- BLS12, every integer x for which the family polynomial is integral: r(x) = Φ₁₂(x) divides 81·Φ₁₂(p(x)) (3p ≡ 3x mod r), so for
+    3 ∤ r the embedding degree divides 12 -/
+theorem b12_family_embedding (x : Int) (h3 : (x - 1) ^ 2 * b12R x % 3 = 0) :
+    b12R x ∣ 81 * ((b12P x) ^ 4 - (b12P x) ^ 2 + 1) := by
+  have h : 3 * b12P x = 3 * x + (x - 1) ^ 2 * b12R x := by
+    unfold b12P
+    have := Int.ediv_mul_cancel (Int.dvd_of_emod_eq_zero h3)
+    omega
+  have e : 81 * ((b12P x) ^ 4 - (b12P x) ^ 2 + 1) = (3 * b12P x) ^ 4 - 9 * (3 * b12P x) ^ 2 + 81 := by ring
+  rw [e, h]
+  refine ⟨81 + (x - 1) ^ 2 * ((3 * x + (x - 1) ^ 2 * b12R x) ^ 3 + (3 * x + (x - 1) ^ 2 * b12R x) ^ 2 * (3 * x)
+      + (3 * x + (x - 1) ^ 2 * b12R x) * (3 * x) ^ 2 + (3 * x) ^ 3) - 9 * (x - 1) ^ 2 * ((3 * x + (x - 1) ^ 2 * b12R x) + 3 * x), ?_⟩
+  unfold b12R; ring
 
 end Relic.Props.C18
